@@ -40,7 +40,13 @@ func vC18String(i int, max int) {
 	rule := vC18Rules[i].rule
 	tag := "C18 " + vC18Rules[i].name + "/string"
 	rm := NewRule().Set("k", rule)
-	switch vndChoice("carrier", 7) {
+	switch vndChoice("carrier", 8) {
+	case 7: // the whole URL percent-encoded once (no literal '?'): decoded once, then split
+		v := vndString("v", max)
+		vAssume(vAnd(vAnd(vNoByte(v, '&'), vNoByte(v, '=')), vNoByte(v, '?')))
+		want := Var(v, rule) != nil
+		got := Url(vPctEncode("http://h/p?k="+v), rm) != nil
+		vAssert(got == want, tag+": wholly percent-encoded URL vs Var")
 	case 0: // struct field
 		v := vndString("v", max)
 		want := Var(v, rule) != nil
@@ -303,5 +309,29 @@ func H_C18_all_kinds() {
 	v, m, _ := vC18Verdicts(x)
 	vAssert(vClass(s) == vClass(v), "C18 "+field+": struct field (after unexported and time.Time fields) vs Var")
 	vAssert(vClass(m) == vClass(v), "C18 "+field+": map entry vs Var")
+	vReach("end")
+}
+
+// a rule list: the same rules given to Var one per argument, joined in one argument, and as the tag /
+// rule-map text of the other entry points; every carrier reports the same number of clauses
+func H_C18_rule_lists() {
+	lists := [][]string{{"ge=2", "le=1"}, {"required", "eq=5", "in=(a/b)"}, {"int", "prefix=a", "le=2|too long"}, {"ge=3", "", "re='^a,b'"}}
+	rules := lists[vndChoice("list", len(lists))]
+	joined := strings.Join(rules, ",")
+	v := vndString("v", 2)
+	want := vCountClauses(Var(v, rules...))
+	tag := "C18 rule list " + joined
+	switch vndChoice("carrier", 5) {
+	case 0:
+		vAssert(vCountClauses(Var(v, joined)) == want, tag+": Var with the list in one argument")
+	case 1:
+		vAssert(vCountClauses(NewVVar().SetRules(joined).Valid(v)) == want, tag+": VVar.SetRules with the list in one argument")
+	case 2:
+		vAssert(vCountClauses(Struct(&vC18S{F: v}, NewRule().Set("F", joined))) == want, tag+": struct field")
+	case 3:
+		vAssert(vCountClauses(Map(map[string]string{"k": v}, NewRule().Set("k", rules...))) == want, tag+": map entry")
+	case 4:
+		vAssert(vCountClauses(Url("h?k="+vPctEncode(v), NewRule().Set("k", joined))) == want, tag+": URL parameter")
+	}
 	vReach("end")
 }
